@@ -166,9 +166,30 @@ def main():
     for _, k in cases:
         stats[k] = stats.get(k, 0) + 1
     rc_m, err_m, out_m = run_cases(model, lines, pid + ".model")
+    # cases on which the model predicts that the implementation does not return (finding D8) are run only a few
+    # times each run: every one of them costs the harness its whole time-out
+    impl_lines = list(lines)
+    if hasattr(gen, "impl_skip"):
+        budget = getattr(gen, "IMPL_SKIP_KEEP", 6)
+        for k, (ln, om) in enumerate(zip(lines, out_m)):
+            if gen.impl_skip(ln, om):
+                if budget > 0:
+                    budget -= 1
+                else:
+                    impl_lines[k] = ""
     impl_env = dict(os.environ)
     impl_env.update(getattr(gen, "IMPL_ENV", {}))
-    rc_i, err_i, out_i = run_cases(impl, lines, pid + ".impl", args=getattr(gen, "IMPL_ARGS", ()), env=impl_env)
+    rc_i, err_i, out_i = run_cases(impl, impl_lines, pid + ".impl", args=getattr(gen, "IMPL_ARGS", ()), env=impl_env)
+    # an instrumented (sanitizer) harness dies on the first report: record that case and carry on with the rest
+    restarts = 0
+    while len(out_i) < len(lines) and restarts < getattr(gen, "MAX_RESTARTS", 0):
+        died_at = len(out_i)
+        report = [l for l in err_i.split("\n") if "ERROR" in l or "runtime error" in l or "SUMMARY" in l]
+        out_i.append("crash sanitizer: " + (" ".join(report[:2])[:300] if report else "harness died rc=%s" % rc_i))
+        restarts += 1
+        if died_at + 1 < len(lines):
+            rc_i, err_i, more = run_cases(impl, impl_lines[died_at + 1:], pid + ".impl%d" % restarts, args=getattr(gen, "IMPL_ARGS", ()), env=impl_env)
+            out_i.extend(more)
     if len(out_m) != len(lines) or len(out_i) != len(lines):
         print("check: harness protocol error: %d cases, %d model lines (rc %s), %d impl lines (rc %s)\n%s\n%s" % (
             len(lines), len(out_m), rc_m, len(out_i), rc_i, err_m[-1500:], err_i[-1500:]))
@@ -191,6 +212,9 @@ def main():
     ndiff = 0
     for (case, klass), om, oi in zip(cases, out_m, out_i):
         if oi == "skipped-after-timeouts":
+            continue
+        if oi == "skip" and case != "":
+            outcome_hist["not-run:model-predicts-no-return"] = outcome_hist.get("not-run:model-predicts-no-return", 0) + 1
             continue
         if oi == "timeout" or oi.startswith("crash "):
             if hasattr(gen, "abnormal_ok") and gen.abnormal_ok(case, om, oi):
